@@ -146,7 +146,9 @@ class LiteDRAMAvalonMM2Native(LiteXModule):
             wdata_fifo.sink.payload.byteenable.eq(avalon.byteenable),
             wdata_fifo.sink.valid.eq(avalon.write & ~avalon.waitrequest),
 
-            If(avalon.write & (burst_count > 0),
+            # The burst only ends when all its beats have been received: the master may insert idle
+            # cycles (write low) between the beats of a burst.
+            If(burst_count > 0,
                 If(cmd_fifo.sink.ready & cmd_fifo.sink.valid,
                     NextValue(burst_count, burst_count - 1),
                     NextValue(address, address + burst_increment)
